@@ -8,6 +8,8 @@ an independent numpy.linalg.svd of the (centred) data.
 """
 import numpy as np
 
+from vf.tx import amax as _amax
+
 from vf.core import Workload
 from vf import taps, gen
 
@@ -65,7 +67,7 @@ def pca_invariant(self):
         g = comp @ comp.T
         e = np.abs(g - np.eye(len(ev))).max()
         ctx.err("orthonormality", e)
-        if e > 1e-7:
+        if not (e <= 1e-7):
             ctx.fail("components_not_orthonormal", cls=cls, err=float(e))
         ov = float(self.original_variance())
         rec = LEDGER.get(id(self))
@@ -148,25 +150,25 @@ class ProjectionMonitor(taps.Monitor):
                 w = PCAVectorModel.project(m, np.asarray(r))
                 e = float(np.abs(w - x).max())
                 ctx.err("project_of_instance", e)
-                if e > 1e-8 * scale:
+                if not (e <= 1e-8 * scale):
                     ctx.fail("projecting_an_instance_does_not_return_its_weights", cls=cls, err=e)
         elif self.name == "reconstruct":
             again = PCAVectorModel.reconstruct(m, np.asarray(r))
             e = float(np.abs(again - r).max())
-            if e > 1e-8 * scale:
+            if not (e <= 1e-8 * scale):
                 ctx.fail("reconstruction_is_not_idempotent", cls=cls, err=e)
             resid = x - np.asarray(r)
             e2 = float(np.abs(C @ resid).max())
-            if e2 > 1e-8 * scale:
+            if not (e2 <= 1e-8 * scale):
                 ctx.fail("reconstruction_is_not_an_orthogonal_projection", cls=cls, err=e2)
         elif self.name == "project_out":
             resid = np.asarray(r).ravel()
             e = float(np.abs(C @ resid).max())
             ctx.err("residual_orthogonality", e)
-            if e > 1e-8 * scale:
+            if not (e <= 1e-8 * scale):
                 ctx.fail("projected_out_residual_is_not_orthogonal_to_the_model", cls=cls, err=e)
             rec = PCAVectorModel.reconstruct(m, x)
-            if np.abs((x - rec) - resid).max() > 1e-8 * scale:
+            if _amax((x - rec) - resid) > 1e-8 * scale:
                 ctx.fail("project_out_is_not_the_complement_of_reconstruct", cls=cls)
 
 
@@ -271,7 +273,7 @@ def object_api(ctx, model, w, x, scale):
         pairs.append(("reconstruct_object", model.reconstruct(inst).as_vector(), PCAVectorModel.reconstruct(model, inst.as_vector())))
     for name, a, b in pairs:
         a, b = np.asarray(a, dtype=float).ravel(), np.asarray(b, dtype=float).ravel()
-        if a.shape != b.shape or np.abs(a - b).max() > 1e-9 * 100.0 * max(1.0, scale):
+        if a.shape != b.shape or _amax(a - b) > 1e-9 * 100.0 * max(1.0, scale):
             ctx.fail("object_level_operation_differs_from_the_vector_level_one_on_the_same_model", cls=cls, mech=name,
                      shapes="%s_vs_%s" % (a.shape, b.shape))
     ctx.tap("object_api_vs_vector_api", "checked")
@@ -300,14 +302,14 @@ def w_model(ctx, rng, i):
     scale = max(1.0, float(np.abs(X).max()))
     if model.n_samples != n:
         ctx.fail("n_samples_wrong", cls=cls)
-    if np.abs(model._mean - m).max() > 1e-9 * scale:
+    if _amax(model._mean - m) > 1e-9 * scale:
         ctx.fail("model_mean_is_not_the_sample_mean", cls=cls, mech="centred" if centre else "uncentred")
     if model.n_components != len(lam):
         ctx.fail("number_of_components_differs_from_rank", cls=cls, mech=rel, got=int(model.n_components), expected=int(len(lam)))
     else:
         e = float(np.abs(model.eigenvalues - lam).max() / lam[0])
         ctx.err("eigenvalues_vs_svd", e)
-        if e > 1e-8:
+        if not (e <= 1e-8):
             ctx.fail("eigenvalues_are_not_the_sample_variances_along_the_components", cls=cls, mech=rel + (":centred" if centre else ":uncentred"), err=e)
         dots = np.abs(np.sum(model.components * V, axis=1))
         # adjacent eigenvalues differ by >= 10%: components match one by one (weak components get a looser bound)
@@ -316,12 +318,12 @@ def w_model(ctx, rng, i):
         # eigenvalue k = second moment of the data along component k
         proj = (X - m) @ model.components.T
         var = (proj ** 2).sum(0) / (n - 1)
-        if np.abs(var - model.eigenvalues).max() > 1e-8 * lam[0]:
+        if _amax(var - model.eigenvalues) > 1e-8 * lam[0]:
             ctx.fail("eigenvalue_is_not_the_variance_along_its_component", cls=cls, mech=rel)
         # every training sample is reconstructed exactly with all components
         for row in X[: min(n, 5)]:
             rec = PCAVectorModel.reconstruct(model, row)
-            if np.abs(rec - row).max() > 1e-8 * scale:
+            if _amax(rec - row) > 1e-8 * scale:
                 ctx.fail("training_sample_not_reconstructed_exactly", cls=cls, mech=rel, err=float(np.abs(rec - row).max()))
                 break
     # ---- identities through the public API (taps judge them)
@@ -449,15 +451,15 @@ def w_alt_constructors(ctx, rng, i):
     if model.n_components != len(lam):
         ctx.fail("number_of_components_differs_from_rank", cls=cls, mech="alt_ctor_%d" % kind, got=int(model.n_components), expected=int(len(lam)))
     else:
-        if np.abs(model._eigenvalues - lam).max() > 1e-7 * lam[0]:
+        if _amax(model._eigenvalues - lam) > 1e-7 * lam[0]:
             ctx.fail("eigenvalues_are_not_the_sample_variances_along_the_components", cls=cls, mech="alt_ctor_%d" % kind)
         dots = np.abs(np.sum(model._components * V, axis=1))
         if (dots < 1 - 1e-6).any():
             ctx.fail("components_do_not_span_the_principal_directions", cls=cls, mech="alt_ctor_%d" % kind, worst=float(dots.min()))
         resid = np.abs(C @ model._components.T - model._components.T * model._eigenvalues).max()
-        if resid > 1e-7 * lam[0]:
+        if not (resid <= 1e-7 * lam[0]):
             ctx.fail("component_is_not_an_eigenvector_of_the_covariance_for_its_eigenvalue", cls=cls, mech="alt_ctor_%d" % kind, err=float(resid))
-    if np.abs(model._mean - m).max() > 1e-9 * max(1.0, np.abs(m).max()):
+    if _amax(model._mean - m) > 1e-9 * max(1.0, np.abs(m).max()):
         ctx.fail("model_mean_is_not_the_sample_mean", cls=cls, mech="alt_ctor_%d" % kind)
     if model.n_samples != n:
         ctx.fail("n_samples_wrong", cls=cls, mech="alt_ctor")
